@@ -186,6 +186,7 @@ let () =
                      | "RR" -> let s = parse_snapshot f.(2) in onr (fun r -> peer_restore_remotes r s)
                      | "SNAP" -> Some (node_snapshot nd (parse_snapshot f.(2)) (nv 3))
                      | "U" -> let (nd', u) = node_update nd (f.(2) = "1") (nv 3) in upd := Some u; Some nd'
+                     | "MUT" -> Some nd
                      | _ -> None))) in
             (match result with
              | None -> Printf.printf "%s %d PANIC\n" cid k; stop := true
